@@ -51,7 +51,7 @@ CLAIMED.update({
          'at most inactivity_ticks local ticks old and no failure notification about j is handled, a peer seen RUNNING stays RUNNING '
          '(any other messages, stale/duplicated handshake results, failures of other peers, internal errors). The instance graph, the active '
          'states and the strict comparison of is_inactive are REGENERATED from the source; the table has only documented edges, ISOLATED is final. '
-         'Tie: translator + global lock-step of the real cluster with crash/restart/cut/heal instants and tick phases.',
+         'Tie: translator + global lock-step of the real cluster with crash/restart/cut/heal instants and tick phases. A free-running closed loop of real instances (harness/c16free.py) also judges that a peer seen RUNNING 12 ticks into a quiet phase without fault is still seen RUNNING at its end.',
     note='Partial: the detection bound and same-tick invalidation are carried by the lock-step correspondence and by timing judges on the real '
          'objects, not by a theorem; "lost processes become FATAL" is C11 (C11_lose_unlists; the former known finding lose-while-only-stopping was repaired by a0ba3bf); local-never-ISOLATED '
          'is judged. Real clocks and TCP time-outs are outside the model (an XML-RPC failure is an input).',
